@@ -55,6 +55,7 @@ struct TaskRec
   bool throws = false;
   std::future<int> fut;
   uint64_t submitStep = 0;
+  uint64_t acceptedStep = 0; // step at which the accepting submission call had returned
 };
 
 struct Ctx
@@ -67,8 +68,33 @@ struct Ctx
   bool terminated = false;
   size_t maxSeenThreads = 0;
   bool accepting = true;
+  bool drainedOk = false; // drain() reported success: every task accepted before it began has finished
+  uint64_t drainStartStep = 0;
 };
 Ctx *g = nullptr;
+
+// A value captured by every task closure.  Its last copy lives inside the pool's task object, so its destructor marks
+// the moment the pool destroys the task (and with it whatever the application captured).  "Every accepted task has
+// finished" includes that destruction: a terminator that returns while a worker still has to destroy a finished task's
+// closure lets the application free what the closure refers to.  Only destructions performed by POOL threads count
+// (a submitter may hold the last temporary copy itself).
+thread_local bool tl_harnessThread = false;
+struct Tok
+{
+  int id;
+  explicit Tok(int i) : id(i) {}
+  ~Tok()
+  {
+    if (g && g->terminated && !tl_harnessThread)
+      mc_violation("none-after-shutdown", "task-object-destroyed-after-shutdown-returned",
+                   "the closure of task " + std::to_string(id) + " was destroyed by a pool thread after the terminator had returned");
+    else if (g && g->drainedOk && !tl_harnessThread && g->rec[id].acceptedStep && g->rec[id].acceptedStep < g->drainStartStep)
+      // (a submission racing drain() may be accepted after drain's last look at the queue; only tasks whose
+      // submission had RETURNED before drain() was called are covered by drain's "all completed")
+      mc_violation("none-after-shutdown", "task-object-destroyed-after-drain-succeeded",
+                   "the closure of task " + std::to_string(id) + " was destroyed by a pool thread after drain() had reported that all tasks completed");
+  }
+};
 
 void body(int id, bool slow, bool throws, bool nested)
 {
@@ -112,6 +138,7 @@ void submit(const Scn &sc, char k, const std::string &who)
   int id = g->nrec++;
   TaskRec &r = g->rec[id];
   r.submitStep = mc_step();
+  auto tok = std::make_shared<Tok>(id);
   bool termStartedBefore = g->termStartStep != 0;
   (void)termStartedBefore;
   try
@@ -119,30 +146,30 @@ void submit(const Scn &sc, char k, const std::string &who)
     switch (k)
     {
     case 'e':
-      g->pool->enqueue([id]() { body(id, false, false, false); });
+      g->pool->enqueue([id, tok]() { body(id, false, false, false); });
       r.accepted = true;
       break;
     case 'w':
-      g->pool->enqueue([id]() { body(id, true, false, false); });
+      g->pool->enqueue([id, tok]() { body(id, true, false, false); });
       r.accepted = true;
       break;
     case 'x':
       r.throws = true;
-      g->pool->enqueue([id]() { body(id, false, true, false); });
+      g->pool->enqueue([id, tok]() { body(id, false, true, false); });
       r.accepted = true;
       break;
     case 'n':
-      g->pool->enqueue([id]() { body(id, false, false, true); });
+      g->pool->enqueue([id, tok]() { body(id, false, false, true); });
       r.accepted = true;
       break;
     case 't':
-      r.accepted = g->pool->tryEnqueue([id]() { body(id, false, false, false); });
+      r.accepted = g->pool->tryEnqueue([id, tok]() { body(id, false, false, false); });
       r.refused = !r.accepted;
       break;
     case 'r':
       r.hasFuture = true;
       r.fut = g->pool->enqueueWithResult(
-        [id]()
+        [id, tok]()
         {
           body(id, false, false, false);
           return id + 1000;
@@ -153,7 +180,7 @@ void submit(const Scn &sc, char k, const std::string &who)
       r.hasFuture = true;
       r.throws = true;
       r.fut = g->pool->enqueueWithResult(
-        [id]() -> int
+        [id, tok]() -> int
         {
           body(id, false, true, false);
           return 0;
@@ -173,6 +200,8 @@ void submit(const Scn &sc, char k, const std::string &who)
     if (r.refusal.find("queue is full") == std::string::npos && g->termStartStep == 0)
       mc_violation("refusal-reason", "draining-or-shutdown-before-any-terminator", "submission refused with '" + r.refusal + "' although no drain/stop/shutdown had started");
   }
+  if (r.accepted)
+    r.acceptedStep = mc_step();
   mc_obs("%s %c(%d)=%s", who.c_str(), k, id, r.accepted ? "ok" : "refused");
   sampleWorkers(sc);
 }
@@ -180,6 +209,7 @@ void submit(const Scn &sc, char k, const std::string &who)
 void runScenario(const Scn &sc)
 {
   mc_label("main:setup");
+  tl_harnessThread = true;
   Ctx ctx;
   g = &ctx;
   ctx.pool = new ThreadPool(sc.initial, sc.max, std::chrono::milliseconds(sc.idleMs), sc.queueMax, [](std::exception_ptr) { g->handlerCalls++; });
@@ -192,6 +222,7 @@ void runScenario(const Scn &sc)
     th.emplace_back(
       [&, si]()
       {
+        tl_harnessThread = true;
         std::string who = "S" + std::to_string(si + 1);
         for (char k : sc.submitters[si])
         {
@@ -210,6 +241,7 @@ void runScenario(const Scn &sc)
     th.emplace_back(
       [&]()
       {
+        tl_harnessThread = true;
         for (char k : term)
         {
           mc_label((std::string("X:") + k).c_str());
@@ -222,8 +254,11 @@ void runScenario(const Scn &sc)
             ctx.termStartStep = mc_step() ? mc_step() : 1;
           if (k == 'D')
           {
+            ctx.drainStartStep = mc_step();
             auto r = ctx.pool->drain(2000);
             mc_obs("X drain=%d", int(r.success));
+            if (r.success)
+              ctx.drainedOk = true;
           }
           else if (k == 'S')
           {
